@@ -835,6 +835,43 @@ func judgeState(live, sc, ib []int) bool {
 }
 
 // ---------------------------------------------------------------------------------------------------------------------
+// malformed stream: documented misuse of the API (wrong argument kinds / element types).  Outside the property's
+// quantifier (it ranges over interleavings of well-typed calls), so outcomes are recorded, never judged.
+
+func misuse(run *hx.Run) {
+	probe := func(name string, f func() string) {
+		out := hx.Guard(3*time.Second, f)
+		if strings.HasPrefix(out, "panic") {
+			out = "panic"
+		}
+		run.Count("misuse:" + name + ":" + out)
+	}
+	probe("subscribe-non-channel", func() string { var f event.Feed; f.Subscribe(42); return "accepted" })
+	probe("subscribe-recv-only-channel", func() string {
+		var f event.Feed
+		f.Subscribe((<-chan int)(make(chan int)))
+		return "accepted"
+	})
+	probe("subscribe-other-elem-type", func() string {
+		var f event.Feed
+		f.Subscribe(make(chan int, 1))
+		f.Subscribe(make(chan string, 1))
+		return "accepted"
+	})
+	probe("send-other-type", func() string {
+		var f event.Feed
+		f.Subscribe(make(chan int, 1))
+		f.Send("x")
+		return "accepted"
+	})
+	// after a recovered type-mismatch panic of Send, is the feed still usable?  (candidate defect: f.mu stays locked)
+	var f event.Feed
+	f.Subscribe(make(chan int, 4))
+	hx.Safe(func() string { f.Send("x"); return "" })
+	after := hx.Guard(2*time.Second, func() string { f.Subscribe(make(chan int, 4)); f.Send(1); return "usable" })
+	run.Count("misuse:feed-after-recovered-send-type-panic:" + after)
+	run.Notes["send_type_mismatch_panic_wedges_feed"] = after == "hang"
+}
 
 func main() {
 	run := hx.Start()
@@ -842,7 +879,7 @@ func main() {
 	hook := event.VerifSetYield(hookYield)
 	run.Notes["yield_hook_present"] = hook
 
-	rounds, budget := 2500, 45*time.Second
+	rounds, budget := 6000, 45*time.Second
 	if run.Thorough() {
 		rounds, budget = 400000, 14*time.Minute
 	}
@@ -873,12 +910,14 @@ func main() {
 			reps = 300 // same plan, many schedules
 		}
 		for rep := 0; rep < reps; rep++ {
-			if round%50 == 1 {
+			if round%50 == 1 || only >= 0 {
 				p := procsCycle[(round/50)%len(procsCycle)]
 				if p > runtime.NumCPU() {
 					p = runtime.NumCPU()
 				}
-				runtime.GOMAXPROCS(p)
+				if p != runtime.GOMAXPROCS(0) {
+					runtime.GOMAXPROCS(p)
+				}
 			}
 			run.Current(fmt.Sprintf("round %d", round))
 			// the plan of a round depends only on (seed, round), so a replay regenerates it exactly
@@ -920,6 +959,7 @@ func main() {
 		}
 	}
 	curSched.Store(nil)
+	misuse(run)
 	run.Notes["rounds"] = executed
 	run.Notes["hangs"] = hangs
 	for p := 1; p < len(yieldCounts); p++ {
